@@ -5,7 +5,7 @@ use crate::program::{self, build_prover, build_verifier, take_ctx, Dev, Env, Pro
 use crate::proofparts::Parts;
 use crate::props::common::*;
 use crate::recorder::{record_guarded, Event};
-use crate::schedule::{expected_steps, main_events, run_monitor};
+use crate::schedule::{expected_steps_ordered, main_events, run_monitor};
 use crate::with_curve;
 use ark_bulletproofs::r1cs::R1CSProof;
 use merlin::Transcript;
@@ -28,12 +28,12 @@ pub fn run_prog<G: Cv>(env: &Env<G>, prog: &Program, seed: u64) -> Out {
         let (prover, ctx, comms) = build_prover::<G, Transcript>(prog, &env.pc, t, seed, Dev::None);
         let mut rng = crate::alphabet::chacha(seed, "c06");
         let r = prover.prove_and_return_transcript(&mut rng, &env.bp);
-        let _ = take_ctx(ctx);
-        (r.map(|(p, t)| (p.to_bytes().unwrap(), t)), comms)
+        let order = take_ctx(ctx).closure_order;
+        (r.map(|(p, t)| (p.to_bytes().unwrap(), t)), comms, order)
     });
-    let (bytes, mut ptr, comms) = match pres {
-        Ok((Ok((b, t)), c)) => (b, t, c),
-        Ok((Err(e), _)) => {
+    let (bytes, mut ptr, comms, order) = match pres {
+        Ok((Ok((b, t)), c, o)) => (b, t, c, o),
+        Ok((Err(e), _, _)) => {
             out.bad.push(("prove returns Ok".into(), format!("Err({:?})", e)));
             return out;
         }
@@ -69,7 +69,7 @@ pub fn run_prog<G: Cv>(env: &Env<G>, prog: &Program, seed: u64) -> Out {
             return out;
         }
     };
-    let steps = expected_steps::<G>(prog, &comms, &parts);
+    let steps = expected_steps_ordered::<G>(prog, &comms, &parts, &order);
     let (pmain, pm) = main_events(&pev);
     let (vmain, vm) = main_events(&vev);
     out.events = (pm.len() + vm.len()) as u64;
